@@ -25,12 +25,18 @@ type exprTr struct {
 	old   *State
 	fi    *FuncInfo
 	depth int
+	unfolding *types.Func
 }
 
 func (vc *VC) clauseTerm(fi *FuncInfo, cl *Clause, env map[string]Val, res map[string]Val, st, old *State) Term {
 	ce, err := vc.P.checkClause(fi, cl)
 	if err != nil {
 		panic(unsupported{err.Error()})
+	}
+	if cl.Hint {
+		if bad := hintShape(ce.expr); bad != "" {
+			panic(unsupported{fmt.Sprintf("%s:%d: a hint may only combine unfold(f(...)) atoms with &&, ==> and bounded forall (found %s)", cl.File, cl.Line, bad)})
+		}
 	}
 	m := map[string]Val{}
 	for k, v := range env {
@@ -474,6 +480,28 @@ func (ex *exprTr) call(x *ast.CallExpr) Val {
 		return Val{t: implies(ex.tr(x.Args[0]).t, ex.tr(x.Args[1]).t), typ: rt}
 	case "verif_iff":
 		return Val{t: eq(ex.tr(x.Args[0]).t, ex.tr(x.Args[1]).t), typ: rt}
+	case "verif_unfold":
+		// unfold(f(args)):  f(args) == <body of the recursive spec function f at args>; true by definition
+		c, ok := x.Args[0].(*ast.CallExpr)
+		if !ok {
+			vc.fail("contract: unfold needs a call of a recursive spec function")
+		}
+		var fo *types.Func
+		if id, ok := c.Fun.(*ast.Ident); ok {
+			fo, _ = ex.info.Uses[id].(*types.Func)
+		}
+		if fo == nil {
+			vc.fail("contract: unfold needs a call of a recursive spec function")
+		}
+		lhs := ex.tr(c)
+		ex.unfolding = fo
+		rhs := ex.specCall(fo, c, lhs.typ)
+		ex.unfolding = nil
+		vc.assume("definition instance of recursive spec function " + fo.Name() + " (unfold hint; true by definition, assumed well-founded)")
+		return Val{t: eq(lhs.t, rhs.t), typ: rt}
+	case "verif_sameArray":
+		a, b := ex.tr(x.Args[0]), ex.tr(x.Args[1])
+		return Val{t: eq(slRef(a.t), slRef(b.t)), typ: rt}
 	case "verif_Z":
 		a := ex.tr(x.Args[0])
 		return Val{t: a.t, typ: rt}
@@ -500,7 +528,10 @@ func (ex *exprTr) call(x *ast.CallExpr) Val {
 		n := fl.Type.Params.List[0].Names[0].Name
 		c := vc.freshName(n)
 		ex.env = append(ex.env, map[string]Val{n: {t: c, typ: types.Typ[types.Int]}})
+		saveND := vc.noDefine
+		vc.noDefine = true
 		body := ex.tr(fl.Body.List[0].(*ast.ReturnStmt).Results[0]).t
+		vc.noDefine = saveND
 		ex.env = ex.env[:len(ex.env)-1]
 		vc.quantCtx = true
 		bound := and(app("<=", lo, c), app("<", c, hi))
@@ -527,7 +558,10 @@ func (ex *exprTr) call(x *ast.CallExpr) Val {
 		}
 		ex.env = append(ex.env, scope)
 		ret := fl.Body.List[0].(*ast.ReturnStmt)
+		saveND := vc.noDefine
+		vc.noDefine = true
 		body := ex.tr(ret.Results[0]).t
+		vc.noDefine = saveND
 		ex.env = ex.env[:len(ex.env)-1]
 		vc.quantCtx = true
 		if name == "verif_forall" {
@@ -584,6 +618,20 @@ func (ex *exprTr) specCall(fo *types.Func, x *ast.CallExpr, rt types.Type) Val {
 		r := app(f, ts...)
 		return Val{t: r, typ: rt}
 	}
+	if isRecursiveSpec(decl) && ex.unfolding != fo {
+		// recursive spec function: opaque (an uninterpreted function). Its definition is available
+		// only through explicit `unfold(f(args))` hints, which instantiate the body once; this keeps
+		// the solver from unfolding without bound.
+		var sorts []string
+		var ts []Term
+		for _, a := range args {
+			sorts = append(sorts, vc.S.sortOf(a.typ))
+			ts = append(ts, vc.asTerm(a))
+		}
+		f := vc.declareFun(sym("spec."+fo.Name()), sorts, vc.S.sortOf(rt))
+		return Val{t: app(f, ts...), typ: rt}
+	}
+	unfoldingThis := ex.unfolding == fo
 	if ex.depth > 12 {
 		vc.fail("contract: spec function recursion too deep (%s); recursive spec functions need `decreases` support", fo.Name())
 	}
@@ -604,6 +652,7 @@ func (ex *exprTr) specCall(fo *types.Func, x *ast.CallExpr, rt types.Type) Val {
 		}
 	}
 	sub := &exprTr{vc: vc, info: info, env: []map[string]Val{scope}, st: ex.st, old: ex.old, fi: ex.fi, depth: ex.depth + 1}
+	_ = unfoldingThis // inner calls of the function being unfolded are opaque again (sub.unfolding == nil)
 	t := sub.stmts(decl.Body.List, rt)
 	return Val{t: t, typ: rt}
 }
